@@ -942,7 +942,7 @@ theorem Inv.disconnect_facts {buf : Nat} {g : G} (hi : Inv buf g) (hl : LInv buf
     exact ⟨d, rfl, hs, hi.vetoHead d hv, hl.tl⟩
 
 theorem obs_check_of_inv {buf : Nat} {g : G} (hi : Inv buf g) (hl : LInv buf g) :
-    g.obs.check buf false = none ∧ (g.inflight = 0 → g.obs.check buf true = none) := by
+    g.obs.check buf 0 = none ∧ g.obs.check buf 1 = none ∧ (g.inflight = 0 → g.obs.check buf 2 = none) := by
   have hpre := hi.prefix_source
   obtain ⟨ha, hb, _, _, _⟩ := hi.accounting
   have h1 : g.obs.got.isPrefixOf g.obs.sent = true := by
@@ -959,12 +959,221 @@ theorem obs_check_of_inv {buf : Nat} {g : G} (hi : Inv buf g) (hl : LInv buf g) 
     simp only [G.obs]; rw [hl.sum]; omega
   have h4' := decide_eq_true h4
   have h5' := decide_eq_true h5
-  constructor
+  refine ⟨?_, ?_, ?_⟩
+  · simp only [Obs.check, h1, h2, h3, h4', h5']; rfl
   · simp only [Obs.check, h1, h2, h3, h4', h5']; rfl
   · intro h0
     have h6 : approvedSum g.obs.logs = g.obs.got.length := by
       simp only [G.obs]; rw [hl.sum]; omega
     have h6' := decide_eq_true h6
     simp only [Obs.check, h1, h2, h3, h4', h5', h6']; rfl
+
+/-! ### the relay started from its scripts; facts about every reachable state -/
+
+/-! ### the relay's inputs -/
+
+/-- everything the environment of one relay decides: per direction the source's read
+    results, the logger's verdicts, the sink's write results -/
+structure Scripts where
+  upSrc : List Rd
+  upVerd : List Bool
+  upW : List (Option Nat)
+  downSrc : List Rd
+  downVerd : List Bool
+  downW : List (Option Nat)
+
+/-- io.Reader contract: no Read returns more than the buffer it was given -/
+def Scripts.Contract (sc : Scripts) : Prop :=
+  (∀ r ∈ sc.upSrc, r.data.length ≤ Gen.copyBufSize) ∧ (∀ r ∈ sc.downSrc, r.data.length ≤ Gen.copyBufSize)
+
+def start (sc : Scripts) : St :=
+  St.init (G.init sc.upSrc sc.upVerd sc.upW) (G.init sc.downSrc sc.downVerd sc.downW)
+
+/-- the bytes the source of direction `l` produces -/
+def Scripts.data (sc : Scripts) : Label → Bytes
+  | .down => (sc.downSrc.map (·.data)).flatten
+  | _ => (sc.upSrc.map (·.data)).flatten
+
+theorem reachable (v : Variant) (sc : Scripts) (hc : sc.Contract) (sched : List Label) :
+    RInv Gen.copyBufSize v (run v (start sc) sched) :=
+  run_rinv v sched _ (init_rinv v _ _ (init_inv _ _ _ hc.1) (init_inv _ _ _ hc.2)
+    (init_linv _ _ _) (init_linv _ _ _) rfl rfl)
+
+theorem reachable_dir (v : Variant) (sc : Scripts) (hc : sc.Contract) (sched : List Label) (l : Label) :
+    Inv Gen.copyBufSize ((run v (start sc) sched).dir l) ∧ LInv Gen.copyBufSize ((run v (start sc) sched).dir l) := by
+  have h := reachable v sc hc sched
+  cases l <;> exact ⟨by first | exact h.up | exact h.down, by first | exact h.lup | exact h.ldown⟩
+
+theorem source_of_run (v : Variant) (sc : Scripts) (sched : List Label) (l : Label) :
+    ((run v (start sc) sched).dir l).source = sc.data l := by
+  obtain ⟨h1, h2⟩ := run_source v sched (start sc)
+  cases l <;> simp only [St.dir, Scripts.data] <;> (first | rw [h1] | rw [h2]) <;>
+    simp [start, St.init, G.init, G.source]
+
+
+theorem run_flags_mono (v : Variant) (sched : List Label) (s : St) :
+    (s.targetClosed = true → (run v s sched).targetClosed = true) ∧
+    (s.streamClosed = true → (run v s sched).streamClosed = true) ∧
+    (s.connClosed = true → (run v s sched).connClosed = true) := by
+  induction sched generalizing s with
+  | nil => exact ⟨id, id, id⟩
+  | cons l rest ih =>
+    obtain ⟨a, b, c⟩ := ih (step v s l)
+    have hstep : (s.targetClosed = true → (step v s l).targetClosed = true) ∧
+        (s.streamClosed = true → (step v s l).streamClosed = true) ∧
+        (s.connClosed = true → (step v s l).connClosed = true) := by
+      cases l with
+      | main =>
+        simp only [step, stepMain]
+        split
+        · split <;> simp
+        all_goals simp_all
+      | up =>
+        simp only [step]
+        generalize gstep (s.streamClosed || s.connClosed) s.targetClosed s.up = r
+        cases hr : r.2 with
+        | none => simp [applyEff]
+        | refused => cases v <;> simp [applyEff]
+        | sent o => simp [applyEff]
+      | down =>
+        simp only [step]
+        generalize gstep s.targetClosed (s.streamClosed || s.connClosed) s.down = r
+        cases hr : r.2 with
+        | none => simp [applyEff]
+        | refused => cases v <;> simp [applyEff]
+        | sent o => simp [applyEff]
+    exact ⟨fun h => a (hstep.1 h), fun h => b (hstep.2.1 h), fun h => c (hstep.2.2 h)⟩
+
+theorem run_clean (v : Variant) (sched : List Label) (s : St) (l : Label)
+    (hr : RInv Gen.copyBufSize v s) (hc : Clean (s.dir l))
+    (h1 : (run v s sched).targetClosed = false) (h2 : (run v s sched).streamClosed = false)
+    (h3 : (run v s sched).connClosed = false) : Clean ((run v s sched).dir l) := by
+  induction sched generalizing s with
+  | nil => exact hc
+  | cons x rest ih =>
+    obtain ⟨m1, m2, m3⟩ := run_flags_mono v rest (step v s x)
+    have f1 : (step v s x).targetClosed = false := by
+      cases h : (step v s x).targetClosed with
+      | false => rfl
+      | true => have := m1 h; simp only [run, List.foldl_cons] at h1; simp only [run] at this; rw [this] at h1; cases h1
+    have f2 : (step v s x).streamClosed = false := by
+      cases h : (step v s x).streamClosed with
+      | false => rfl
+      | true => have := m2 h; simp only [run, List.foldl_cons] at h2; simp only [run] at this; rw [this] at h2; cases h2
+    have f3 : (step v s x).connClosed = false := by
+      cases h : (step v s x).connClosed with
+      | false => rfl
+      | true => have := m3 h; simp only [run, List.foldl_cons] at h3; simp only [run] at this; rw [this] at h3; cases h3
+    obtain ⟨n1, n2, n3⟩ := run_flags_mono v [x] s
+    have g1 : s.targetClosed = false := by
+      cases h : s.targetClosed with
+      | false => rfl
+      | true => have := n1 h; simp only [run, List.foldl_cons, List.foldl_nil] at this; rw [this] at f1; cases f1
+    have g2 : s.streamClosed = false := by
+      cases h : s.streamClosed with
+      | false => rfl
+      | true => have := n2 h; simp only [run, List.foldl_cons, List.foldl_nil] at this; rw [this] at f2; cases f2
+    have g3 : s.connClosed = false := by
+      cases h : s.connClosed with
+      | false => rfl
+      | true => have := n3 h; simp only [run, List.foldl_cons, List.foldl_nil] at this; rw [this] at f3; cases f3
+    apply ih (step v s x) (step_rinv v s x hr) _ h1 h2 h3
+    -- one step keeps the direction clean
+    cases x with
+    | main =>
+      obtain ⟨a, b, _⟩ := stepMain_dirs s
+      cases l <;> simp only [St.dir, step] at hc ⊢ <;> (first | (rw [a]; exact hc) | (rw [b]; exact hc))
+    | up =>
+      simp only [step]
+      obtain ⟨a, b, _⟩ := applyEff_dirs v
+        { s with up := (gstep (s.streamClosed || s.connClosed) s.targetClosed s.up).1 }
+        (gstep (s.streamClosed || s.connClosed) s.targetClosed s.up).2
+      cases l with
+      | down => simp only [St.dir] at hc ⊢; rw [b]; exact hc
+      | up =>
+        simp only [St.dir] at hc ⊢; rw [a]
+        simp only [g1, g2, g3, Bool.or_self]
+        exact gnext_clean s.up hr.up hc
+      | main =>
+        simp only [St.dir] at hc ⊢; rw [a]
+        simp only [g1, g2, g3, Bool.or_self]
+        exact gnext_clean s.up hr.up hc
+    | down =>
+      simp only [step]
+      obtain ⟨a, b, _⟩ := applyEff_dirs v
+        { s with down := (gstep s.targetClosed (s.streamClosed || s.connClosed) s.down).1 }
+        (gstep s.targetClosed (s.streamClosed || s.connClosed) s.down).2
+      cases l with
+      | up => simp only [St.dir] at hc ⊢; rw [a]; exact hc
+      | main => simp only [St.dir] at hc ⊢; rw [a]; exact hc
+      | down =>
+        simp only [St.dir] at hc ⊢; rw [b]
+        simp only [g1, g2, g3, Bool.or_self]
+        exact gnext_clean s.down hr.down hc
+
+/-- the three script components of direction `l` -/
+def Scripts.src (sc : Scripts) : Label → List Rd
+  | .down => sc.downSrc
+  | _ => sc.upSrc
+def Scripts.verd (sc : Scripts) : Label → List Bool
+  | .down => sc.downVerd
+  | _ => sc.upVerd
+def Scripts.wres (sc : Scripts) : Label → List (Option Nat)
+  | .down => sc.downW
+  | _ => sc.upW
+
+
+def MainOk (s : St) : Prop :=
+  match s.mpc with
+  | .recv => s.targetClosed = false ∧ s.streamClosed = false ∧ s.ret = none
+  | .closeTarget => s.ret ≠ none ∧ s.streamClosed = false
+  | .closeStream => s.ret ≠ none ∧ s.targetClosed = true
+  | .closeConn => s.ret = some .disconnect ∧ s.targetClosed = true ∧ s.streamClosed = true
+  | .done => s.ret ≠ none ∧ s.targetClosed = true ∧ s.streamClosed = true ∧
+      (s.ret = some .disconnect → s.connClosed = true)
+
+theorem step_mainOk (v : Variant) (s : St) (l : Label) (h : MainOk s) : MainOk (step v s l) := by
+  cases l with
+  | main =>
+    simp only [step, stepMain]
+    cases hm : s.mpc with
+    | recv =>
+      simp only [MainOk, hm] at h
+      cases hch : s.chan with
+      | nil => simpa [MainOk, hm] using h
+      | cons o rest => simp [MainOk, h.2.1]
+    | closeTarget => simp only [MainOk, hm] at h; simp [MainOk, h.1]
+    | closeStream =>
+      simp only [MainOk, hm] at h
+      by_cases hd : s.ret = some .disconnect
+      · simp [MainOk, hd, h.2]
+      · simp [MainOk, hd, h.1, h.2]
+    | closeConn => simp only [MainOk, hm] at h; simp [MainOk, h.1, h.2.1, h.2.2]
+    | done => simpa [MainOk, hm] using h
+  | up =>
+    simp only [step]
+    generalize gstep (s.streamClosed || s.connClosed) s.targetClosed s.up = r
+    cases hr : r.2 with
+    | none => simpa [applyEff, MainOk] using h
+    | sent o => simpa [applyEff, MainOk] using h
+    | refused =>
+      cases v with
+      | pinned => simpa [applyEff, MainOk] using h
+      | fixed =>
+        simp only [applyEff, MainOk] at h ⊢
+        cases hm : s.mpc <;> simp only [hm] at h ⊢ <;> simp_all
+  | down =>
+    simp only [step]
+    generalize gstep s.targetClosed (s.streamClosed || s.connClosed) s.down = r
+    cases hr : r.2 with
+    | none => simpa [applyEff, MainOk] using h
+    | sent o => simpa [applyEff, MainOk] using h
+    | refused =>
+      cases v with
+      | pinned => simpa [applyEff, MainOk] using h
+      | fixed =>
+        simp only [applyEff, MainOk] at h ⊢
+        cases hm : s.mpc <;> simp only [hm] at h ⊢ <;> simp_all
+
 
 end Hy.Relay
